@@ -42,6 +42,9 @@ class FrameItem(EFLRItem):
         self.index_min = NumericAttribute('index_min')
         self.index_max = NumericAttribute('index_max')
 
+        # (attribute, 'value'/'units') pairs which were not given by the user, but derived from the data at the last write
+        self._derived_from_data: list[tuple[Attribute, str]] = []
+
         super().__init__(name, parent=parent, **kwargs)
 
     @staticmethod
@@ -96,6 +99,12 @@ class FrameItem(EFLRItem):
             if getattr(attr, key) is None and value is not None:
                 logger.debug(f"Setting {attr.label}.{key} of {self} to {value}")
                 setattr(attr, key, value)
+                self._derived_from_data.append((attr, key))
+
+        # index characteristics derived at a previous write describe other rows (other data or row range) - drop them
+        for derived_attr, derived_key in self._derived_from_data:
+            setattr(derived_attr, f'_{derived_key}', None)
+        self._derived_from_data.clear()
 
         index_channel: ChannelItem = self.channels.value[0]
         index_data = data[index_channel.name][:]
